@@ -28,6 +28,9 @@ func linSym(v ssa.Value) string {
 		return "int(" + linSym(cv.X) + ")"
 	}
 	if u, ok := v.(*ssa.UnOp); ok && u.Op == token.MUL {
+		if g, ok := u.X.(*ssa.Global); ok {
+			return "global " + g.Pkg.Pkg.Path() + "." + g.Name()
+		}
 		if ia, ok := u.X.(*ssa.IndexAddr); ok {
 			return linSym(ia.X) + "[" + LinOf(ia.Index).String() + "]"
 		}
